@@ -357,7 +357,8 @@ namespace cds { namespace algo {
             assert( !eos());
             assert( is_correct( count ));
 
-            int_type result = ( number_ >> shift_ ) & (( 1 << count ) - 1 );
+            typedef typename std::make_unsigned<int_type>::type mask_type;
+            int_type result = static_cast<int_type>( static_cast<mask_type>( number_ >> shift_ ) & (( static_cast<mask_type>( 1 ) << count ) - 1 ));
             shift_ += count;
 
             return result;
